@@ -1683,9 +1683,15 @@ def span_start_first(m, bad, stats):
         # the instance that receives the span is built by this match (a constructor call in this function), not an
         # object kept at module level and handed out again
         cname = top.d['name']
+        def is_ctor(f):
+            return (isinstance(f, ast.Name) and f.id == cname) or (isinstance(f, ast.Attribute) and f.attr == cname)
+        # (the instance may be staged in a temporary before it reaches the result register)
         built = [n for n in ast.walk(fn) if isinstance(n, ast.Assign) and isinstance(n.value, ast.Call)
-                 and isinstance(n.value.func, ast.Name) and n.value.func.id == cname
-                 and any(isinstance(t, ast.Name) and t.id == '_result' for t in n.targets)]
+                 and is_ctor(n.value.func)]
+        cdef_ = m.classes.get(cname)
+        if cdef_ is not None and any(isinstance(x, ast.FunctionDef) and x.name == '__new__' for x in cdef_.body):
+            bad('SPAN-fresh-instance', f'{m.label}: class {cname} defines __new__: calling the constructor need not build a new '
+                                       f'object, so the span of one match may be written onto the instance of another')
         if not built:
             got = [ast.unparse(n.value)[:40] for n in ast.walk(fn) if isinstance(n, ast.Assign)
                    and any(isinstance(t, ast.Name) and t.id == '_result' for t in n.targets)
